@@ -340,6 +340,10 @@ fn run_child(dir: &Path, trees: &[&Tree], secs: u64) -> Option<Vec<Observed>> {
         }
     };
     if !ok {
+        // the child did not get to drop its scratch directory
+        if let Some(base) = dir.parent() {
+            let _ = std::fs::remove_dir_all(base.join(format!("c11c-{}", ch.id())));
+        }
         return None;
     }
     let v: Vec<Value> = serde_json::from_str(&std::fs::read_to_string(&outp).ok()?).ok()?;
